@@ -138,6 +138,11 @@ var c09Shapes = []useShape{
 	{"conversion", func(n int, q string, i int, _ string) string {
 		return fmt.Sprintf("type my%d struct {\n\tA int\n\t%sInner%d\n\t*%sPtr%d\n}\n\nvar cv%d = %sT%d(my%d{})\n\nvar mk%d = %sMk%d().A + (&%sT%d{}).PM()\n", n, q, i, q, i, n, q, i, n, n, q, i, q, i)
 	}},
+	{"literal-keys", func(n int, q string, i int, _ string) string {
+		// a package-level constant / variable as the key of a map literal and as the index of an array literal
+		// (under a dot-import the key is a bare identifier in KeyValueExpr.Key position: not a field name)
+		return fmt.Sprintf("var mk%d = map[int]string{%sK%d: \"k\", %sX%d: \"x\"}\n\nvar ak%d = [...]string{%sK%d: \"three\"}\n\nvar sk%d = []%sT%d{%sK%d: {A: %sK%d}}\n", n, q, i, q, i, n, q, i, n, q, i, q, i, q, i)
+	}},
 	{"select-range", func(n int, q string, i int, _ string) string {
 		return fmt.Sprintf("func sr%d(c chan %sT%d, xs []%sInner%d) (n int) {\n\tfor _, x := range xs {\n\t\tn += x.V\n\t}\n\tselect {\n\tcase t := <-c:\n\t\tn += t.A\n\tdefault:\n\t}\n\treturn\n}\n", n, q, i, q, i)
 	}},
